@@ -1,6 +1,7 @@
 package as
 
 import (
+	"sync/atomic"
 	"bufio"
 	"encoding/json"
 	"fmt"
@@ -142,7 +143,7 @@ func RunPairs(out string, seed int64, n, workers int) (*Summary, error) {
 	}
 	all := make([][]Line, n)
 	var wg sync.WaitGroup
-	errs := make(chan error, workers+1)
+	errs := make(chan error, workers+8)
 	for wk := 0; wk < workers; wk++ {
 		wg.Add(1)
 		go func(wk int) {
@@ -175,11 +176,44 @@ func RunPairs(out string, seed int64, n, workers int) (*Summary, error) {
 		}(wk)
 	}
 	wg.Wait()
+	// an identity provider that HANGS is "no answer": ordinary sign-in cells of the class "closed", one world each,
+	// all at once (the wait is the provider client's own timeout, real time)
+	var hangCells []Cell
+	for _, prov := range []string{"google", "okta"} {
+		cfg := Cfg{Prov: prov, Pol: "domains"}
+		hangCells = append(hangCells,
+			Cell{Ev: "signin", Cfg: cfg, C: &Cookie{Kind: "sess", Life: 3, Ref: 2, RT: true, AT: true, Email: "allowed"}, Ans: &SAns{Refresh: "ok", Rexp: 1, Validate: "closed"}},
+			Cell{Ev: "signin", Cfg: cfg, C: &Cookie{Kind: "sess", Life: 3, Ref: -1, RT: true, AT: true, Email: "allowed"}, Ans: &SAns{Refresh: "closed", Rexp: 1, Validate: "ok"}})
+	}
+	hang := make([]Line, len(hangCells))
+	atomic.StoreInt32(&hangForClosed, 1)
+	world.ExpectTimeouts(true)
+	for i := range hangCells {
+		wg.Add(1)
+		go func(i int) {
+			defer wg.Done()
+			w, err := NewWorld()
+			if err != nil {
+				errs <- err
+				return
+			}
+			defer w.Close()
+			if w.Sites[hangCells[i].Cfg] == nil {
+				errs <- fmt.Errorf("hang probes: no site for %+v", hangCells[i].Cfg)
+				return
+			}
+			hang[i] = w.RunSignInCell(39000000+i, hangCells[i], rand.New(rand.NewSource(seed*6151+int64(i))))
+		}(i)
+	}
+	wg.Wait()
+	atomic.StoreInt32(&hangForClosed, 0)
+	world.ExpectTimeouts(false)
 	select {
 	case err := <-errs:
 		return nil, err
 	default:
 	}
+	all = append(all, hang)
 	f, err := os.Create(out)
 	if err != nil {
 		return nil, err
